@@ -1,5 +1,6 @@
 import MtailVerif.Proofs.Runtime
 import MtailVerif.Generated.Runtime
+import MtailVerif.Proofs.Skeletons
 /-! # C06 — Programs are isolated from each other -/
 namespace MtailVerif.C06
 open MtailVerif MtailVerif.Runtime
@@ -125,5 +126,11 @@ theorem line_effect_is_local (q p : Bytes) (d : SMetric) (labels : List Bytes) (
       · left; rfl
     · rfl
   · rw [h1, h2]
+
+/-! ### regenerated control skeletons (written by lib/wire_skeletons.py) -/
+/-- Obligations over regenerated facts: the functions this property's model stands for have the
+    control skeleton the model was written against (`Proofs/Skeletons.lean`, one `rfl` per function
+    or clause; DESIGN.md §11.6a) -/
+theorem loader_skeletons : Skeletons.LoaderShape := Skeletons.loader_shape
 
 end MtailVerif.C06
